@@ -1,5 +1,5 @@
 """C05 - every hit is accounted for exactly once at every stage (structural part)."""
-from sa.rules import accounting, typestate
+from sa.rules import accounting, typestate, indexing
 
 LEVEL = 'other'
 
@@ -11,5 +11,6 @@ def check(ctx):
     accounting.sentinels(ctx, 'C05-R3')
     accounting.write_back_masks(ctx, 'C05-R4')
     accounting.hits_immutable(ctx, 'C05-R6')
+    indexing.data_index_state(ctx, 'C05-R6')
     ctx.undecided += ['that scikit-learn returns one label per row; that every mixture component is populated '
                       '(run-time assert in layer.ncomp_from_gmm); that k sub-components give k layers numerically']
